@@ -55,6 +55,9 @@ def gen_labware(rng, kind, name, regime, size_class, idx, opts):
     else:
         vmax = rng.choice([300, 10000, 25000, 100000])
     vmax = float(vmax)
+    if regime != "quarter" and rng.random() < 0.5:
+        # limits that are not binary-exact (100.3, 1234.57, arbitrary floats): "every min/max configuration"
+        vmax = snap(vmax * rng.uniform(0.4, 1.3), regime)
     r = rng.random()
     if r < 0.55:
         vmin = 0.0
